@@ -27,11 +27,11 @@ def C03(tier, seed):
 
 
 def C04(tier, seed):
-    return _step("C04", tier, seed, R.USER[:5], base=("construct",), seg=_paint(tier))
+    return _step("C04", tier, seed, R.USER[:5] + ["UpdateTrackIDs"], base=("construct",), seg=_paint(tier))
 
 
 def C05(tier, seed):
-    return _step("C05", tier, seed, R.USER[:5], base=("construct",), seg=_paint(tier))
+    return _step("C05", tier, seed, R.USER[:5] + ["UpdateTrackIDs"], base=("construct",), seg=_paint(tier))
 
 
 def C06(tier, seed):
